@@ -4,6 +4,7 @@ package c12
 
 import (
 	"fmt"
+	"strings"
 	"testing"
 
 	mocker "github.com/tencent/goom"
@@ -26,10 +27,14 @@ func (t *T) M(a int) int { return -3 }
 //go:noinline
 func foo(a int) int { return -4 }
 
-type I interface{ Get(a int) int }
+type I interface {
+	Get(a int) int
+	Put(a int) int
+}
 type impl struct{}
 
 func (impl) Get(a int) int { return -5 }
+func (impl) Put(a int) int { return -6 }
 
 var iv I = impl{}
 
@@ -40,23 +45,30 @@ type handle struct {
 	// lookups (must be called from this package so that goom's current-package detection sees it)
 	get func(b *mocker.Builder) mocker.ExportedMocker
 	cb  func(k int) interface{}
+	// iface: the handle is one method of the interface variable iv (all such handles share the variable)
+	iface bool
 }
 
 func handles() []handle {
 	return []handle{
 		{"Func(F)", -1, F, func(b *mocker.Builder) mocker.ExportedMocker { return b.Func(F) },
-			func(k int) interface{} { return func(a int) int { return 5000 + k } }},
+			func(k int) interface{} { return func(a int) int { return 5000 + k } }, false},
 		{"Func(G)", -2, G, func(b *mocker.Builder) mocker.ExportedMocker { return b.Func(G) },
-			func(k int) interface{} { return func(a int) int { return 5000 + k } }},
+			func(k int) interface{} { return func(a int) int { return 5000 + k } }, false},
 		{"Struct(T).Method(M)", -3, func(a int) int { return (&T{}).M(a) }, func(b *mocker.Builder) mocker.ExportedMocker { return b.Struct(&T{}).Method("M") },
-			func(k int) interface{} { return func(t *T, a int) int { return 5000 + k } }},
+			func(k int) interface{} { return func(t *T, a int) int { return 5000 + k } }, false},
 		{"ExportFunc(foo).As", -4, foo, func(b *mocker.Builder) mocker.ExportedMocker { return b.ExportFunc("foo").As(func(a int) int { return 0 }) },
-			func(k int) interface{} { return func(a int) int { return 5000 + k } }},
+			func(k int) interface{} { return func(a int) int { return 5000 + k } }, false},
 		{"Interface(&iv).Method(Get).As", -5, func(a int) int { return iv.Get(a) },
 			func(b *mocker.Builder) mocker.ExportedMocker {
 				return b.Interface(&iv).Method("Get").As(func(ctx *mocker.IContext, a int) int { return 0 })
 			},
-			func(k int) interface{} { return func(ctx *mocker.IContext, a int) int { return 5000 + k } }},
+			func(k int) interface{} { return func(ctx *mocker.IContext, a int) int { return 5000 + k } }, true},
+		{"Interface(&iv).Method(Put).As", -6, func(a int) int { return iv.Put(a) },
+			func(b *mocker.Builder) mocker.ExportedMocker {
+				return b.Interface(&iv).Method("Put").As(func(ctx *mocker.IContext, a int) int { return 0 })
+			},
+			func(k int) interface{} { return func(ctx *mocker.IContext, a int) int { return 5000 + k } }, true},
 	}
 }
 
@@ -90,6 +102,7 @@ func TestC12(t *testing.T) {
 			st[i] = &tstate{mode: "orig", clauses: map[int]int{}, dead: map[int]int{}}
 		}
 		var hist []string
+		ifaceLive := false // the interface variable currently holds goom's fake implementation
 		n := 3 + rng.Intn(23)
 		bad := false
 		viol := func(key, what string, ti int) {
@@ -101,6 +114,13 @@ func TestC12(t *testing.T) {
 			rep.Eval(1)
 			switch s.mode {
 			case "orig":
+				if hd.iface && ifaceLive {
+					// another method of the variable is mocked: this one is a slot nobody implemented
+					if _, p := safeCall(hd.call, 7); p == nil || !strings.Contains(fmt.Sprint(p), "method not implements") {
+						viol("C12/unmocked-interface-method", fmt.Sprintf("call(7) did not panic with 'method not implements' (panic %v)", p), ti)
+					}
+					break
+				}
 				if v, p := safeCall(hd.call, 7); p != nil || v != hd.orig {
 					viol("C12/not-original", fmt.Sprintf("call(7) = %d (panic %v), want the original %d", v, p, hd.orig), ti)
 				}
@@ -144,6 +164,9 @@ func TestC12(t *testing.T) {
 				}
 			}
 			for x, old := range s.dead {
+				if hd.iface && ifaceLive && s.mode == "orig" {
+					break
+				}
 				if v, p := safeCall(hd.call, x); p == nil && v == old {
 					viol("C12/configuration-survived-reset", fmt.Sprintf("call(%d) = %d: a clause configured before Cancel/Reset still answers", x, v), ti)
 				}
@@ -166,12 +189,28 @@ func TestC12(t *testing.T) {
 				defer func() { perr = recover() }()
 				f()
 			}
-			kill := func(s *tstate) {
+			kill1 := func(s *tstate) {
 				for x, v := range s.clauses {
 					s.dead[x] = v
 				}
 				s.clauses = map[int]int{}
 				s.mode, s.hasDefault, s.retIssued = "orig", false, 0
+			}
+			kill := func(s *tstate) {
+				if hd.iface && s == st[ti] {
+					if s.mode == "orig" {
+						return // cancelling a method mocker that was never applied leaves the variable alone
+					}
+					// cancelling one method restores the variable: every method mock on it is gone
+					for i := range hs {
+						if hs[i].iface {
+							kill1(st[i])
+						}
+					}
+					ifaceLive = false
+					return
+				}
+				kill1(s)
 			}
 			opname := ""
 			switch {
@@ -217,12 +256,16 @@ func TestC12(t *testing.T) {
 				opname = "Reset"
 				do("Reset", func() { b.Reset() })
 				for _, x := range st {
-					kill(x)
+					kill1(x)
 				}
+				ifaceLive = false
 			}
 			if perr != nil {
 				viol("C12/operation-panicked", fmt.Sprintf("%v", perr), ti)
 				break
+			}
+			if hd.iface && (opname == "Apply" || opname == "Return" || opname == "Returns" || opname == "When") {
+				ifaceLive = true
 			}
 			check(ti, opname)
 			if opname == "Reset" {
